@@ -706,7 +706,8 @@ func (repo *Repository) GetHeaders(ctx context.Context,
 	result := make([]*wire.BlockHeader, 0, maxCount)
 	headersFile := -1
 	var headersData []*HeaderData
-	for height := startHeight; ; height++ {
+	tipHeight := repo.longest.Height()
+	for height := startHeight; height <= tipHeight; height++ {
 		at := repo.longest.AtHeight(height)
 		if at != nil {
 			result = append(result, at.Header)
